@@ -189,20 +189,41 @@ def run(ctx):
 def _send_loop(ctx, ntmod, wsdimpl, frandom):
     """The real send loop on a virtual clock: every transmission leaves at its scheduled time (within the raster of the
     loop), whenever stop is requested - before the first transmission, between any two, or never."""
-    clock = {'now': NOW, 'stop_at': None}
+    clock = {'now': NOW, 'stop_at': None, 'enqueue_at': None}
     sent = []
+    sent2 = []
     holder = {}
 
     class _Sock:
         def sendto(self, data, addr):  # noqa: ARG002
-            sent.append(clock['now'])
+            if holder.get('id2') and holder['id2'].encode() in data:
+                sent2.append(clock['now'])
+            else:
+                sent.append(clock['now'])
 
     class _Sel:
         def select(self, timeout=None):  # noqa: ARG002
             return [(types.SimpleNamespace(fileobj=_Sock()), 1)]
 
     def vsleep(seconds):
-        clock['now'] += seconds
+        # virtual time passes in steps of at most 5 ms, so that something can happen while the loop sleeps
+        remaining = seconds
+        while True:
+            step = min(remaining, 0.005)
+            clock['now'] += step
+            remaining -= step
+            if clock['enqueue_at'] is not None and clock['now'] >= clock['enqueue_at']:
+                clock['enqueue_at'] = None
+                nt = holder['nt']
+                old_fixed = frandom.fixed
+                frandom.fixed = lambda kind, a, b, step=1: a      # second message: no initial delay, smallest first gap
+                msg2 = _mk_message(wsdimpl)
+                holder['id2'] = msg2.p_msg.header_info_block.MessageID
+                nt.add_outbound_message(msg2, '239.255.255.250', 3702, holder['params'])
+                frandom.fixed = old_fixed
+                holder['schedule2'] = sorted(e.send_time for e in list(nt._send_queue.queue) if e.msg.created_message is msg2)
+            if remaining <= 1e-12:
+                break
         if clock['stop_at'] is not None and clock['now'] >= clock['stop_at']:
             holder['nt'].schedule_stop()
     old_time = ntmod.time
@@ -252,6 +273,38 @@ def _send_loop(ctx, ntmod, wsdimpl, frandom):
                         if late:
                             ctx.violation(f'send-loop/sent-later-than-raster/{name}', {'case': key, 'sent_vs_scheduled_s': late},
                                           case={'kind': 'send-loop'})
+                    # a second message is handed to the node while the loop waits for the next copy of the first one: its
+                    # copies leave at their own scheduled times
+                    for enqueue_at in [NOW + 0.001] + [(a + b) / 2 for a, b in zip(schedule, schedule[1:])][:3]:
+                        nt = _mk_nt(ntmod, wsd)
+                        holder.update(nt=nt, params=params, id2=None, schedule2=None)
+                        nt._outbound_selector = _Sel()
+                        clock['now'] = NOW
+                        del sent[:]
+                        del sent2[:]
+                        nt.add_outbound_message(_mk_message(wsdimpl), '239.255.255.250', 3702, params)
+                        clock['enqueue_at'] = enqueue_at
+                        clock['stop_at'] = schedule[-1] + 10.0
+                        nt._run_send()
+                        clock['enqueue_at'] = None
+                        ctx.transition(len(sent) + len(sent2))
+                        ctx.trace()
+                        ctx.evals()
+                        ctx.add('states')
+                        key = f'{name}/d0={d0}/g0={g0}/second-message-at={round(enqueue_at - NOW, 3)}'
+                        ctx.nontrivial(('send-loop-2', key, tuple(round((a - NOW) * 1000) for a in sent2)))
+                        sch2 = holder.get('schedule2') or []
+                        raster = ntmod.SEND_LOOP_IDLE_SLEEP + ntmod.SEND_LOOP_BUSY_SLEEP + 0.005 + 1e-6
+                        if len(sent2) != len(sch2) or len(sent) != len(schedule):
+                            ctx.violation(f'send-loop/transmissions-lost-or-added/{name}/two-messages',
+                                          {'case': key, 'sent': [len(sent), len(sent2)], 'scheduled': [len(schedule), len(sch2)]},
+                                          case={'kind': 'send-loop'})
+                            continue
+                        late2 = [(round(a - NOW, 4), round(b - NOW, 4)) for a, b in zip(sent2, sch2) if a > b + raster]
+                        early2 = [(round(a - NOW, 4), round(b - NOW, 4)) for a, b in zip(sent2, sch2) if a < b - 1e-9]
+                        if late2 or early2:
+                            ctx.violation(f'send-loop/second-message-not-sent-at-its-scheduled-times/{name}',
+                                          {'case': key, 'late': late2, 'early': early2}, case={'kind': 'send-loop'})
     finally:
         ntmod.time = old_time
         frandom.fixed = None
